@@ -22,3 +22,7 @@ fp("dask/array/core.py", "_vindex", "_vindex_array", "_numpy_vindex", "_vindex_s
 fp("dask/array/slicing.py", "sanitize_index")
 fp("dask/array/slicing.py", "slice_with_newaxes", "slice_wrap_lists", "slice_array", "slice_with_int_dask_array",
    "slice_with_int_dask_array_on_axis", "slice_with_bool_dask_array")
+
+fp("dask/array/core.py", "Array.__new__", "Array.__dask_keys__", "Array._reset_cache", "Array._key_array", "Array.numblocks",
+   "Array.npartitions", "Array.shape", "Array.ndim", "Array.size", "Array._chunks", "Array._name", "Array.compute_chunk_sizes",
+   "Array.to_delayed", "handle_out", "BlockView.__getitem__")
